@@ -28,6 +28,9 @@ func main() {
 		c.worker(os.Args[3])
 		return
 	}
+	if os.Args[1] == "smokeagg" {
+		os.Exit(smokeAgg(os.Args[2], os.Args[3], os.Args[4]))
+	}
 	if os.Args[1] == "smoke" {
 		os.Exit(smokeRelay(os.Args[2], os.Args[3], os.Args[4]))
 	}
